@@ -988,3 +988,228 @@ Proof.
       split; [exact I'|]. split; [congruence|]. split; [congruence|]. split; [congruence|].
       exists nl. split; [exact El|]. exact HDS.
 Qed.
+
+(* ---------- receive(), resynchronize(), datagrams: one ghost step each ---------- *)
+Definition receive_g (r : receiver) : receiver * list (list N) * list logent :=
+  let base_id := r_base r in
+  let n := N.to_nat (pid_sub (r_end r) base_id) in
+  let '(r1, out, log) := recv_deliver_g n base_id base_id r [] [] in
+  if r_wrf r1 then
+    let r2 := mkReceiver (r_base r1) (r_end r1) (r_alloc r1) (r_max_alloc r1) (r_wsize r1) (r_slots r1) (r_chans r1) (r_crf r1) false in
+    (advance_window r2 (recv_scan n base_id base_id r2), out, log)
+  else (r1, out, log).
+
+Lemma receive_g_erase r :
+  let '(r', out, log) := receive_g r in receiver_receive r = (r', out) /\ out = log_data log.
+Proof.
+  unfold receive_g, receiver_receive.
+  pose proof (recv_deliver_g_erase (N.to_nat (pid_sub (r_end r) (r_base r))) (r_base r) (r_base r) r [] []) as H.
+  destruct (recv_deliver_g _ _ _ r [] []) as [[r1 out] log]. destruct H as (E & nl & El & Eo). rewrite E.
+  cbn [app] in El, Eo. subst nl. destruct (r_wrf r1); auto.
+Qed.
+
+(* the absolute id of the window base moves by the distance between the 20-bit bases *)
+Definition abs_step (B : N) (r r' : receiver) : N := B + pid_sub (r_base r') (r_base r).
+
+Lemma Dok_advance B r nb D :
+  RI r -> nb < pow20 -> pid_sub nb (r_base r) <= r_wsize r -> (forall k, k < pid_sub nb (r_base r) -> sl_dflag (so r k) = false) ->
+  Dok B r D -> RI (advance_window r nb) /\ Dok (B + pid_sub nb (r_base r)) (advance_window r nb) D /\ r_base (advance_window r nb) = nb.
+Proof.
+  intros I Hnb Hd Hnf HD. destruct (advance_window_RI r nb I Hnb Hd Hnf) as (I' & Bq & _ & Hcb & _).
+  split; [exact I'|]. split; [|exact Bq]. intros c A Hin. specialize (HD c A Hin). rewrite Hcb. lia.
+Qed.
+
+Lemma receive_step B r D :
+  RI r -> Dok B r D -> chan_sorted D ->
+  let '(r', out, log) := receive_g r in
+  let D' := D ++ map (fun e => (fst (fst e), B + pid_sub (snd (fst e)) (r_base r))) log in
+  RI r' /\ Dok (abs_step B r r') r' D' /\ chan_sorted D'.
+Proof.
+  intros I HD HS. unfold receive_g.
+  pose proof (ri_base r I) as Hb. pose proof (ri_eoff r I) as Heo.
+  assert (Hs0 : cg (r_base r) (r_base r + 0)) by (unfold cg; rewrite N.add_0_r; reflexivity).
+  assert (Hn0 : 0 + N.of_nat (N.to_nat (pid_sub (r_end r) (r_base r))) <= eoff r) by (unfold eoff; lia).
+  assert (Hsk : Skip r 0) by (intros k Hk; lia).
+  pose proof (deliver_loop B (N.to_nat (pid_sub (r_end r) (r_base r))) (r_base r) 0 r [] [] D I Hs0 Hn0 Hsk HD HS) as L.
+  destruct (recv_deliver_g _ _ _ r [] []) as [[r1 out] log]. destruct L as (I1 & B1 & E1 & W1 & nl & El & HD1 & HS1).
+  cbn [app] in El. subst nl. cbv zeta in HD1, HS1 |- *.
+  match type of HS1 with chan_sorted ?X => remember X as D1 eqn:ED1 end.
+  destruct (r_wrf r1).
+  - remember (mkReceiver (r_base r1) (r_end r1) (r_alloc r1) (r_max_alloc r1) (r_wsize r1) (r_slots r1) (r_chans r1) (r_crf r1) false) as r2 eqn:Er2.
+    assert (I2 : RI r2) by (apply (RI_same r1 r2); try (rewrite Er2; reflexivity); exact I1).
+    assert (B2 : r_base r2 = r_base r) by (rewrite Er2; exact B1).
+    assert (Eo2 : eoff r2 = eoff r) by (unfold eoff; rewrite Er2; cbn [r_end r_base]; rewrite E1, B1; reflexivity).
+    assert (HD2 : Dok B r2 D1).
+    { intros c A Hin. specialize (HD1 c A Hin). rewrite Er2. exact HD1. }
+    assert (Hs2 : cg (r_base r) (r_base r2 + 0)) by (rewrite B2; exact Hs0).
+    destruct (recv_scan_spec r2 I2 (N.to_nat (pid_sub (r_end r) (r_base r))) (r_base r) (r_base r) 0 0 Hs2 Hs2 Hb ltac:(lia)) as (m' & Q1 & Q2 & Q3 & Q4 & Q5).
+    { rewrite Eo2. unfold eoff. lia. }
+    { intros k H1 H2. lia. }
+    remember (recv_scan (N.to_nat (pid_sub (r_end r) (r_base r))) (r_base r) (r_base r) r2) as nb eqn:Enb.
+    assert (Hps : pid_sub nb (r_base r2) = m').
+    { apply pid_sub_spec; [rewrite B2; exact Hb|destruct (ri_w r I) as (_ & Q & _); unfold eoff in *; unfold pow20 in *; lia|exact Q2]. }
+    destruct (Dok_advance B r2 nb D1 I2 Q1) as (I' & HD' & Bq); [rewrite Hps, <- W1 in *; rewrite Er2; cbn [r_wsize]; rewrite W1; unfold eoff in *; lia| |exact HD2|].
+    { rewrite Hps. intros k Hk. apply Q5; lia. }
+    subst D1. split; [exact I'|]. split; [|exact HS1]. unfold abs_step. rewrite Bq. rewrite B2 in HD'. exact HD'.
+  - subst D1. split; [exact I1|]. split; [|exact HS1]. unfold abs_step. rewrite B1, (pid_sub_self _ Hb), N.add_0_r. exact HD1.
+Qed.
+
+Lemma resync_step B r id D :
+  RI r -> Dok B r D ->
+  let r' := receiver_resynchronize r id in RI r' /\ Dok (abs_step B r r') r' D.
+Proof.
+  intros I HD. cbv zeta. unfold receiver_resynchronize. pose proof (ri_base r I) as Hb.
+  assert (Same : RI r /\ Dok (abs_step B r r) r D).
+  { split; [exact I|]. unfold abs_step. rewrite (pid_sub_self _ Hb), N.add_0_r. exact HD. }
+  destruct (pid_valid id) eqn:Hv; cbn [negb]; [|exact Same].
+  destruct (N.ltb_spec (r_wsize r) (pid_sub id (r_base r))) as [_|Hle]; [exact Same|].
+  assert (Hs0 : cg (r_base r) (r_base r + 0)) by (unfold cg; rewrite N.add_0_r; reflexivity).
+  destruct (resync_scan_spec r I (N.to_nat (pid_sub id (r_base r))) (r_base r) 0 Hs0 Hb ltac:(lia)) as (j' & Q1 & Q2 & Q3 & Q4 & Q5).
+  remember (resync_scan (N.to_nat (pid_sub id (r_base r))) (r_base r) r) as nb eqn:Enb.
+  assert (Hps : pid_sub nb (r_base r) = j').
+  { apply pid_sub_spec; [exact Hb|destruct (ri_w r I) as (_ & Q & _); unfold pow20 in *; lia|exact Q2]. }
+  destruct (Dok_advance B r nb D I Q1) as (I' & HD' & Bq); [rewrite Hps; lia| |exact HD|].
+  { rewrite Hps. intros k Hk. destruct (sl_dflag (so r k)) eqn:Hd; [|reflexivity].
+    destruct (ri_dflag r I k ltac:(lia) Hd) as (P & _). rewrite (Q5 k ltac:(lia) Hk) in P. discriminate P. }
+  split; [exact I'|]. unfold abs_step. rewrite Bq. exact HD'.
+Qed.
+
+Lemma handle_datagram_cboff r dg c : RI r -> cboff (receiver_handle_datagram r dg) c = cboff r c /\ r_base (receiver_handle_datagram r dg) = r_base r.
+Proof.
+  intros I. unfold receiver_handle_datagram.
+  destruct (datagram_is_valid dg) eqn:Hv; cbn [negb]; [|auto].
+  destruct (_ <=? _); [auto|]. destruct (_ <? _); [auto|].
+  destruct (asm_try_add _ _ _ dg) as [[asm' alloc'] [p|]]; [|auto].
+  split; [|reflexivity]. unfold cboff. cbn [r_base]. unfold get_chan at 1. cbn [r_chans].
+  rewrite get_chan_upd by (rewrite (ri_chans r I); pose proof (valid_chan dg Hv); lia).
+  destruct (N.eqb_spec (dg_chan dg) c) as [->|_]; reflexivity.
+Qed.
+
+(* ---------- the initial state ---------- *)
+Lemma repeatN_len {A} (x : A) n : length (repeatN x n) = n.
+Proof. induction n; cbn [repeatN length]; auto. Qed.
+
+Lemma receiver_new_RI w b m : 0 < w -> 2 * w <= pow20 -> pow20 mod w = 0 -> b < pow20 -> RI (receiver_new w b m).
+Proof.
+  intros Hw H2 Hd Hb.
+  assert (Hso : forall k, so (receiver_new w b m) k = slot_init).
+  { intros k. unfold so, get_slot, receiver_new. cbn [r_slots]. rewrite repeatN_nth. destruct (Nat.ltb _ _); reflexivity. }
+  assert (Hch : forall c, get_chan (receiver_new w b m) c = mkRChan None 0).
+  { intros c. unfold get_chan, receiver_new. cbn [r_chans]. rewrite repeatN_nth. destruct (Nat.ltb _ _); reflexivity. }
+  constructor.
+  - cbn. auto.
+  - cbn [receiver_new r_slots r_wsize]. apply repeatN_len.
+  - cbn [receiver_new r_chans]. apply repeatN_len.
+  - exact Hb.
+  - exact Hb.
+  - unfold eoff. cbn [receiver_new r_end r_base r_wsize]. rewrite (pid_sub_self b Hb). lia.
+  - intros k Hk Hdf. rewrite Hso in Hdf. discriminate Hdf.
+  - intros c cb Hc. rewrite Hch in Hc. discriminate Hc.
+  - intros k c Hk Hm. rewrite Hso in Hm. discriminate Hm.
+Qed.
+
+(* ---------- whole histories ---------- *)
+Record gstate := mkG { g_r : receiver; g_B : N; g_D : gd; g_out : list (list N) }.
+
+Definition gstep (g : gstate) (o : receiver_op) : gstate :=
+  match o with
+  | RDatagram dg => mkG (receiver_handle_datagram (g_r g) dg) (g_B g) (g_D g) (g_out g)
+  | RReceive =>
+      let '(r', out, log) := receive_g (g_r g) in
+      mkG r' (abs_step (g_B g) (g_r g) r')
+          (g_D g ++ map (fun e => (fst (fst e), g_B g + pid_sub (snd (fst e)) (r_base (g_r g)))) log) (g_out g ++ out)
+  | RResync id => mkG (receiver_resynchronize (g_r g) id) (abs_step (g_B g) (g_r g) (receiver_resynchronize (g_r g) id)) (g_D g) (g_out g)
+  end.
+
+Definition GI (g : gstate) : Prop := RI (g_r g) /\ Dok (g_B g) (g_r g) (g_D g) /\ chan_sorted (g_D g).
+
+Lemma gstep_GI g o : GI g -> GI (gstep g o).
+Proof.
+  intros (I & HD & HS). destruct o as [dg| |id]; cbn [gstep].
+  - split; [apply handle_datagram_RI; exact I|]. split; [|exact HS]. cbn [g_r g_B g_D].
+    intros c A Hin. rewrite (proj1 (handle_datagram_cboff (g_r g) dg c I)). apply HD. exact Hin.
+  - pose proof (receive_step (g_B g) (g_r g) (g_D g) I HD HS) as H. destruct (receive_g (g_r g)) as [[r' out] log].
+    cbv zeta in H. destruct H as (I' & HD' & HS'). split; [exact I'|]. split; [exact HD'|exact HS'].
+  - destruct (resync_step (g_B g) (g_r g) id (g_D g) I HD) as (I' & HD'). split; [exact I'|]. split; [exact HD'|exact HS].
+Qed.
+
+(* the ghost run is the model's run: same receiver state, and what receive() hands out *)
+Lemma gstep_erase g o : g_r (gstep g o) = receiver_step (g_r g) o.
+Proof.
+  destruct o as [dg| |id]; cbn [gstep receiver_step]; try reflexivity.
+  pose proof (receive_g_erase (g_r g)) as H. destruct (receive_g (g_r g)) as [[r' out] log]. destruct H as (E & _). rewrite E. reflexivity.
+Qed.
+
+Definition g_init (w b m : N) : gstate := mkG (receiver_new w b m) b [] [].
+
+Theorem receiver_delivery_order w b m ops :
+  0 < w -> 2 * w <= pow20 -> pow20 mod w = 0 -> b < pow20 ->
+  let g := fold_left gstep ops (g_init w b m) in
+  chan_sorted (g_D g) /\ g_r g = fold_left receiver_step ops (receiver_new w b m).
+Proof.
+  intros Hw H2 Hd Hb. cbv zeta.
+  assert (G0 : GI (g_init w b m)).
+  { split; [apply receiver_new_RI; assumption|]. split; [intros c A []|intros c; constructor]. }
+  assert (H : forall g, GI g -> GI (fold_left gstep ops g) /\ g_r (fold_left gstep ops g) = fold_left receiver_step ops (g_r g)).
+  { induction ops as [|o t IH]; intros g Hg; cbn [fold_left]; [auto|].
+    destruct (IH (gstep g o) (gstep_GI g o Hg)) as (A1 & A2). split; [exact A1|]. rewrite A2, gstep_erase. reflexivity. }
+  destruct (H _ G0) as ((_ & _ & S) & E). split; [exact S|exact E].
+Qed.
+
+(* ---------- the same run with the data attached: what the application receives is exactly the data of the log ---------- *)
+Definition absent (B : N) (r : receiver) (e : logent) : logent := (fst (fst e), B + pid_sub (snd (fst e)) (r_base r), snd e).
+
+Fixpoint run_log (ops : list receiver_op) (g : gstate) (L : list logent) : list logent :=
+  match ops with
+  | [] => L
+  | o :: t =>
+      match o with
+      | RReceive => let '(_, _, log) := receive_g (g_r g) in run_log t (gstep g o) (L ++ map (absent (g_B g) (g_r g)) log)
+      | _ => run_log t (gstep g o) L
+      end
+  end.
+
+Definition log_ids (L : list logent) : gd := map (fun e => (fst (fst e), snd (fst e))) L.
+
+Lemma log_data_map B r log : log_data (map (absent B r) log) = log_data log.
+Proof. unfold log_data. induction log as [|e t IH]; cbn [map flat_map]; [reflexivity|]. rewrite IH. reflexivity. Qed.
+
+Lemma run_log_spec : forall ops g L,
+  g_D g = log_ids L -> g_out g = log_data L ->
+  g_D (fold_left gstep ops g) = log_ids (run_log ops g L) /\ g_out (fold_left gstep ops g) = log_data (run_log ops g L).
+Proof.
+  induction ops as [|o t IH]; intros g L HD HO; cbn [fold_left run_log]; [auto|].
+  destruct o as [dg| |id].
+  - apply IH; cbn [gstep g_D g_out]; assumption.
+  - pose proof (receive_g_erase (g_r g)) as Her. cbn [gstep]. destruct (receive_g (g_r g)) as [[r' out] log] eqn:Erg.
+    destruct Her as (_ & Eo). apply IH; cbn [g_D g_out].
+    + rewrite HD. unfold log_ids. rewrite map_app, map_map. reflexivity.
+    + rewrite HO, log_data_app, log_data_map, Eo. reflexivity.
+  - apply IH; cbn [gstep g_D g_out]; assumption.
+Qed.
+
+(* the packets handed to the application over a whole history, in order *)
+Fixpoint handed_out (ops : list receiver_op) (r : receiver) : list (list N) :=
+  match ops with
+  | [] => []
+  | o :: t => (match o with RReceive => snd (receiver_receive r) | _ => [] end) ++ handed_out t (receiver_step r o)
+  end.
+
+Lemma g_out_handed : forall ops g, g_out (fold_left gstep ops g) = g_out g ++ handed_out ops (g_r g).
+Proof.
+  induction ops as [|o t IH]; intros g; cbn [fold_left handed_out]; [rewrite app_nil_r; reflexivity|].
+  rewrite IH, gstep_erase. destruct o as [dg| |id]; cbn [gstep g_out app]; try reflexivity.
+  pose proof (receive_g_erase (g_r g)) as Her. destruct (receive_g (g_r g)) as [[r' out] log]. destruct Her as (E & _).
+  cbn [g_out]. rewrite E. cbn [snd]. rewrite app_assoc. reflexivity.
+Qed.
+
+Theorem receiver_delivery_log w b m ops :
+  0 < w -> 2 * w <= pow20 -> pow20 mod w = 0 -> b < pow20 ->
+  exists L : list logent,
+    handed_out ops (receiver_new w b m) = log_data L /\ chan_sorted (log_ids L).
+Proof.
+  intros Hw H2 Hd Hb. exists (run_log ops (g_init w b m) []).
+  destruct (run_log_spec ops (g_init w b m) [] eq_refl eq_refl) as (ED & EO).
+  destruct (receiver_delivery_order w b m ops Hw H2 Hd Hb) as (S & _). cbv zeta in S.
+  split; [|rewrite <- ED; exact S]. rewrite <- EO, g_out_handed. reflexivity.
+Qed.
